@@ -3,9 +3,13 @@ package main
 import (
 	"bytes"
 	"crypto"
+	"crypto/x509"
 	"encoding/binary"
+	"errors"
 	"fmt"
 	"io"
+	"os"
+	"sort"
 	"strconv"
 	"strings"
 	"time"
@@ -15,7 +19,10 @@ import (
 	"github.com/foxboron/go-uefi/efi/signature"
 	"github.com/foxboron/go-uefi/efi/util"
 	"github.com/foxboron/go-uefi/efivar"
+	"github.com/foxboron/go-uefi/efivarfs"
+	"github.com/foxboron/go-uefi/efivarfs/fswrapper"
 	"github.com/foxboron/go-uefi/pkcs7"
+	"github.com/spf13/afero"
 )
 
 type rawValue []byte
@@ -42,12 +49,13 @@ func init() {
 		}
 		// the caller's own value object: it changes after the call returned (the next update is prepared)
 		mv := &mutValue{b: unhx(a["payload"])}
+		via := a["via"]
 		t0 := time.Now().UTC()
-		_, m, err := signature.SignEFIVariable(v, mv, signer, cert)
+		m, reached, err := c06Produce(via, v, mv, signer, cert)
 		for try := 0; err != nil && try < atoi(a["busy"]); try++ {
 			// the caller asks again, as it would with a busy token
 			t0 = time.Now().UTC()
-			_, m, err = signature.SignEFIVariable(v, mv, signer, cert)
+			m, reached, err = c06Produce(via, v, mv, signer, cert)
 		}
 		t1 := time.Now().UTC()
 		if err != nil {
@@ -56,11 +64,12 @@ func init() {
 		// a caller that prepares several updates first and writes them afterwards: every result is held
 		// while the later ones are signed (same goroutine, same process) and marshalled only at the end
 		type held struct {
-			m      efivar.Marshallable
-			mv     *mutValue
-			t0, t1 time.Time
+			m       efivar.Marshallable
+			mv      *mutValue
+			t0, t1  time.Time
+			reached string
 		}
-		all := []held{{m, mv, t0, t1}}
+		all := []held{{m, mv, t0, t1, reached}}
 		for k, it := range c06ParseThen(a["then"]) {
 			g := guidFromWire(it.guid)
 			kv := efivar.Efivar{Name: string(it.name), GUID: &g, Attributes: attributes.Attributes(it.attrs)}
@@ -68,12 +77,12 @@ func init() {
 			kcert := makeRSACert(kkey, certShapes(nil)[it.shape%len(certShapes(nil))])
 			kmv := &mutValue{b: it.payload}
 			k0 := time.Now().UTC()
-			_, km, err := signature.SignEFIVariable(kv, kmv, kkey, kcert)
+			km, kreached, err := c06Produce(via, kv, kmv, kkey, kcert)
 			k1 := time.Now().UTC()
 			if err != nil {
 				return "err", fmt.Sprintf("update %d of the sequence: %v", k+1, err)
 			}
-			all = append(all, held{km, kmv, k0, k1})
+			all = append(all, held{km, kmv, k0, k1, kreached})
 		}
 		var lines []string
 		for _, h := range all {
@@ -85,11 +94,116 @@ func init() {
 			}
 			var buf bytes.Buffer
 			h.m.Marshal(&buf)
-			lines = append(lines, fmt.Sprintf("%s %d %d %s", hx(buf.Bytes()), h.t0.Unix(), h.t1.Unix(), hx(h.m.Bytes())))
+			lines = append(lines, fmt.Sprintf("%s %d %d %s %s", hxDash(buf.Bytes()), h.t0.Unix(), h.t1.Unix(), hxDash(h.m.Bytes()), h.reached))
 		}
 		return "ok", strings.Join(lines, "\n")
 	}
+	// the zone the process runs in: offset from UTC and whether the local calendar date is the UTC date right now
+	workerOps["tz.probe"] = func(a map[string]string) (string, string) {
+		now := time.Now()
+		_, off := now.Zone()
+		ly, lm, ld := now.Date()
+		uy, um, ud := now.UTC().Date()
+		return "ok", fmt.Sprintf("%d %v", off, ly != uy || lm != um || ld != ud)
+	}
 }
+
+func hxDash(b []byte) string {
+	if len(b) == 0 {
+		return "-"
+	}
+	return hx(b)
+}
+
+func unhxDash(s string) []byte {
+	if s == "-" {
+		return nil
+	}
+	return unhx(s)
+}
+
+// c06Produce produces one signed update the way the caller of the case does (worker side):
+//
+//	""               signature.SignEFIVariable; the caller takes the bytes of the returned Marshallable
+//	"update-backend" Efivarfs.WriteSignedUpdate over a caller-supplied EFIVars backend that records the variable
+//	                 definition and the value handed to its WriteVar (the SetVariable arguments)
+//	"update-file"    Efivarfs.WriteSignedUpdate over EFIFS on a fresh in-memory filesystem; what reached the store is the
+//	                 one file of the efivars directory: its name, its 4-byte mask, and the bytes after the mask
+//
+// The second result says what reached the store ("-" for the first form).
+func c06Produce(via string, v efivar.Efivar, m efivar.Marshallable, key crypto.Signer, cert *x509.Certificate) (efivar.Marshallable, string, error) {
+	switch via {
+	case "update-backend":
+		st := &c06Store{}
+		if err := efivarfs.Open(st).WriteSignedUpdate(v, m, key, cert); err != nil {
+			return nil, "", err
+		}
+		return c06Captured{st.marshal, st.bytes}, fmt.Sprintf("backend:%d:%s:%s:%d", uint32(st.attrs), hxDash([]byte(st.name)), hxDash(st.guid), st.n), nil
+	case "update-file":
+		mem := afero.NewMemMapFs()
+		fw := fswrapper.NewMemoryWrapper()
+		fw.SetFS(mem)
+		if err := efivarfs.Open(&efivarfs.EFIFS{FSWrapper: fw}).WriteSignedUpdate(v, m, key, cert); err != nil {
+			return nil, "", err
+		}
+		var names []string
+		afero.Walk(mem, "/", func(p string, info os.FileInfo, err error) error {
+			if err == nil && !info.IsDir() {
+				names = append(names, p)
+			}
+			return nil
+		})
+		sort.Strings(names)
+		if len(names) == 0 {
+			return nil, "", errors.New("WriteSignedUpdate returned no error and no file was written")
+		}
+		content, _ := afero.ReadFile(mem, names[0])
+		mask := "-"
+		if len(content) >= 4 {
+			mask = fmt.Sprint(binary.LittleEndian.Uint32(content))
+			content = content[4:]
+		} else {
+			content = nil
+		}
+		return c06Captured{content, content}, fmt.Sprintf("file:%s:%s:%s:%d", mask, hxDash([]byte(names[0])), hxDash([]byte(attributes.Efivars)), len(names)), nil
+	}
+	_, out, err := signature.SignEFIVariable(v, m, key, cert)
+	return out, "-", err
+}
+
+// c06Store is a caller-supplied variable store (efivarfs.EFIVars): it records what WriteVar is handed
+type c06Store struct {
+	name           string
+	guid           []byte
+	attrs          attributes.Attributes
+	marshal, bytes []byte
+	n              int
+}
+
+func (s *c06Store) GetVar(efivar.Efivar, efivar.Unmarshallable) error {
+	return errors.New("write-only store")
+}
+func (s *c06Store) GetVarWithAttributes(efivar.Efivar, efivar.Unmarshallable) (attributes.Attributes, error) {
+	return 0, errors.New("write-only store")
+}
+func (s *c06Store) WriteVar(v efivar.Efivar, m efivar.Marshallable) error {
+	var b bytes.Buffer
+	m.Marshal(&b)
+	s.marshal = append([]byte{}, b.Bytes()...)
+	s.bytes = append([]byte{}, m.Bytes()...)
+	s.name, s.attrs, s.guid = v.Name, v.Attributes, nil
+	if v.GUID != nil {
+		s.guid = wireGUID(*v.GUID)
+	}
+	s.n++
+	return nil
+}
+
+// c06Captured is the value that reached a store, as Marshal and as Bytes gave it
+type c06Captured struct{ marshal, bytes []byte }
+
+func (r c06Captured) Marshal(b *bytes.Buffer) { b.Write(r.marshal) }
+func (r c06Captured) Bytes() []byte           { return r.bytes }
 
 // c06Upd is one update of a sequence signed by one caller: what is signed and by whom
 type c06Upd struct {
@@ -153,12 +267,39 @@ func atoi(s string) int { n, _ := strconv.Atoi(s); return n }
 
 var c06Workers = map[string]*Worker{}
 
+// c06OtherDate is a zone NAME of the cases, not a zone: "the process runs in a fixed-offset zone whose calendar date is
+// not the UTC date at the time of the run".  It is resolved when the case is evaluated (so that a replay at another hour
+// still is such a run): UTC+14 from 11:00 UTC on (the local date is tomorrow's from 10:00 UTC), UTC-12 before (the local
+// date is yesterday's until 12:00 UTC); either choice leaves an hour of margin for the run itself.
+const c06OtherDate = "@date-differs-from-utc"
+
+func c06Zone(tz string) string {
+	if tz != c06OtherDate {
+		return tz
+	}
+	if time.Now().UTC().Hour() >= 11 {
+		return "Etc/GMT-14" // POSIX sign convention: this is UTC+14
+	}
+	return "Etc/GMT+12" // UTC-12
+}
+
+// zones (resolved names) in which the probe found the local calendar date different from the UTC date
+var c06DateDiffers = map[string]bool{}
+
 func c06Worker(c *Ctx, tz string) *Worker {
+	tz = c06Zone(tz)
 	if w, ok := c06Workers[tz]; ok {
 		return w
 	}
 	w := c.NewWorker(4<<20, "TZ="+tz)
 	c06Workers[tz] = w
+	if res := w.Do("tz.probe", map[string]string{}, 10*time.Second); res.Class == "ok" {
+		f := strings.Fields(res.Out)
+		if len(f) == 2 {
+			c06DateDiffers[tz] = f[1] == "true"
+			c.Note("zone "+tz, fmt.Sprintf("offset %ss from UTC; local calendar date differs from the UTC date during the run: %s", f[0], f[1]))
+		}
+	}
 	return w
 }
 
@@ -166,12 +307,15 @@ func c06Eval(c *Ctx, cs Case) {
 	tz := cs.S("tz")
 	first := c06Upd{name: unhx(cs.S("name")), guid: unhx(cs.S("guid")), payload: unhx(cs.S("payload")), attrs: uint32(cs.I("attrs")), key: int(cs.I("key")), shape: int(cs.I("shape"))}
 	seq := append([]c06Upd{first}, c06ParseThen(cs.S("then"))...)
-	c.Count(cs.Key(), true, fmt.Sprintf("varsign/%s/%s/payload%s", tz, cs.S("class"), sizeClass(len(first.payload))))
+	via := cs.S("via")
+	w := c06Worker(c, tz)
+	// a case of the date-differs zone is only what it says when the zone database gave the process that zone
+	c.Count(cs.Key(), tz != c06OtherDate || c06DateDiffers[c06Zone(tz)], fmt.Sprintf("varsign/%s/%s%s/payload%s", tz, cs.S("class"), map[bool]string{true: "/" + via}[via != ""], sizeClass(len(first.payload))))
 	c.Sample(cs)
-	res := c06Worker(c, tz).Do("var.sign", map[string]string{"verif": c.VerifDir, "key": fmt.Sprint(first.key), "shape": fmt.Sprint(first.shape), "name": hx(first.name), "guid": hx(first.guid),
-		"attrs": fmt.Sprint(first.attrs), "payload": hx(first.payload), "slow": fmt.Sprint(cs.I("slow")), "busy": fmt.Sprint(cs.I("busy")), "mutate": fmt.Sprint(cs.I("mutate")), "then": cs.S("then")}, 20*time.Second)
+	res := w.Do("var.sign", map[string]string{"verif": c.VerifDir, "key": fmt.Sprint(first.key), "shape": fmt.Sprint(first.shape), "name": hx(first.name), "guid": hx(first.guid),
+		"attrs": fmt.Sprint(first.attrs), "payload": hx(first.payload), "slow": fmt.Sprint(cs.I("slow")), "busy": fmt.Sprint(cs.I("busy")), "mutate": fmt.Sprint(cs.I("mutate")), "then": cs.S("then"), "via": via}, 20*time.Second)
 	if res.Class != "ok" {
-		c.Fail(Failure{Kind: "property", What: "SignEFIVariable did not return a signed update", Case: cs, Go: clip(res.Class + " " + res.Out + res.Panic), Spec: "ok"})
+		c.Fail(Failure{Kind: "property", What: map[bool]string{false: "SignEFIVariable", true: "WriteSignedUpdate"}[via != ""] + " did not produce a signed update", Case: cs, Go: clip(res.Class + " " + res.Out + res.Panic), Spec: "ok"})
 		return
 	}
 	lines := strings.Split(res.Out, "\n")
@@ -186,7 +330,13 @@ func c06Eval(c *Ctx, cs Case) {
 		if len(seq) > 1 {
 			where = fmt.Sprintf("update %d of %d signed by one caller, all marshalled after the last was signed: ", k+1, len(seq))
 		}
-		c06CheckUpdate(c, cs, tz, where, u, strings.Fields(lines[k]))
+		if via != "" {
+			where = "Efivarfs.WriteSignedUpdate (" + via + "): "
+			if len(seq) > 1 {
+				where = fmt.Sprintf("update %d of %d written one after the other by one caller: ", k+1, len(seq)) + where
+			}
+		}
+		c06CheckUpdate(c, cs, c06Zone(tz), where, u, strings.Fields(lines[k]))
 	}
 }
 
@@ -196,14 +346,45 @@ func c06CheckUpdate(c *Ctx, cs Case, tz, where string, u c06Upd, f []string) {
 	fail := func(what, goObs, spec, matcher string) {
 		c.Fail(Failure{Kind: "property", Matcher: matcher, What: where + what, Case: cs, Go: clip(goObs), Spec: clip(spec)})
 	}
-	if len(f) != 4 {
+	if len(f) != 5 {
+		fail("no signed update came back for this update", strings.Join(f, " "), "bytes, time bracket, what reached the store", "")
 		return
 	}
-	out := unhx(f[0])
+	out := unhxDash(f[0])
 	t0, _ := strconv.ParseInt(f[1], 10, 64)
 	t1, _ := strconv.ParseInt(f[2], 10, 64)
 	if f[3] != f[0] {
 		fail("Marshal and Bytes of the returned value differ", f[3][:min(len(f[3]), 40)], "", "")
+	}
+	// ---- the caller-level entry point: what reaches the variable store is the update that was produced for the (name,
+	// GUID, attributes, payload) the caller gave - one write of that variable with those attributes (the attributes
+	// handed to the store are the ones SetVariable is called with; the signature below is checked over the attributes the
+	// caller gave, so both together say: the signature covers the attributes that are written) ----
+	if r := strings.Split(f[4], ":"); len(r) == 5 {
+		switch r[0] {
+		case "backend":
+			if r[4] != "1" {
+				fail("WriteSignedUpdate did not hand the store exactly one WriteVar", r[4], "1", "")
+			}
+			if r[1] != fmt.Sprint(attrs) {
+				fail("the attributes handed to the variable store are not the attributes the update was produced for (and signed over)", "WriteVar with attributes "+r[1], fmt.Sprint(attrs), "")
+			}
+			if !bytes.Equal(unhxDash(r[2]), name) || !bytes.Equal(unhxDash(r[3]), guid) {
+				fail("the variable handed to the variable store is not the variable the update was produced for", "name "+r[2]+" guid "+r[3], "name "+hx(name)+" guid "+hx(guid), "")
+			}
+		case "file":
+			if r[4] != "1" {
+				fail("WriteSignedUpdate did not leave exactly one file in the store", r[4], "1", "")
+			}
+			if r[1] != fmt.Sprint(attrs) {
+				fail("the attribute mask written in front of the update is not the mask the update was produced for (and signed over)", "file starts with mask "+r[1], fmt.Sprint(attrs), "")
+			}
+			if wantFile := string(unhxDash(r[3])) + "/" + string(name) + "-" + canonGUIDText(guidFromWire(guid)); string(unhxDash(r[2])) != wantFile {
+				fail("the file written is not the file of the variable the update was produced for", string(unhxDash(r[2])), wantFile, "")
+			}
+		}
+	} else if f[4] != "-" {
+		fail("what reached the store is not reported", f[4], "", "")
 	}
 	key := poolKey(c, 2048, keyIdx)
 	cert := makeRSACert(key, certShapes(c)[shape%len(certShapes(c))])
@@ -241,6 +422,11 @@ func c06CheckUpdate(c *Ctx, cs Case, tz, where string, u c06Upd, f []string) {
 	if r, ok := parseDER(sd); !ok || len(r) != 1 || len(r[0].kids) < 4 || r[0].kids[0].tag != 0x02 {
 		fail("the signature is not a bare DER SignedData (first field must be the version INTEGER)", hx(sd[:min(len(sd), 24)]), "", "")
 		return
+	}
+	// detached: the encapsulated content info names the content type and carries no content (a verifier given an
+	// attached copy of the buffer would check that copy, not name||GUID||attributes||timestamp||payload)
+	if r, _ := parseDER(sd); len(r[0].kids[2].kids) != 1 || r[0].kids[2].tag != 0x30 || r[0].kids[2].kids[0].tag != 0x06 {
+		fail("the SignedData is not detached: its encapsulated content info is not a lone content type", hx(r[0].kids[2].encode()[:min(len(r[0].kids[2].encode()), 32)]), "SEQUENCE { OID }", "")
 	}
 	// binding: detached SHA-256 signature over name(UTF-16LE, unterminated) || GUID || attributes || timestamp || payload
 	var want bytes.Buffer
@@ -286,6 +472,33 @@ func c06CheckUpdate(c *Ctx, cs Case, tz, where string, u c06Upd, f []string) {
 		wrongs["attrs-before-guid"] = b2.Bytes()
 		wrongs["without-timestamp"] = append(append([]byte{}, want.Bytes()[:len(want.Bytes())-len(payload)-16]...), payload...)
 		wrongs["payload-plus-byte"] = append(append([]byte{}, want.Bytes()...), 0)
+		// the same buffer with one field changed: every single attribute bit of the low byte flipped, a GUID byte, a name
+		// byte, a timestamp byte, a payload byte
+		build := func(nm, gd []byte, at uint32, t, pl []byte) []byte {
+			var b bytes.Buffer
+			for _, ch := range nm {
+				b.Write([]byte{ch, 0})
+			}
+			b.Write(gd)
+			binary.Write(&b, binary.LittleEndian, at)
+			b.Write(t)
+			b.Write(pl)
+			return b.Bytes()
+		}
+		flip := func(x []byte, i int) []byte {
+			y := append([]byte{}, x...)
+			if len(y) > 0 {
+				y[i%len(y)] ^= 0x01
+			}
+			return y
+		}
+		for bit := uint(0); bit < 8; bit++ {
+			wrongs[fmt.Sprintf("attribute-bit-%d-flipped", bit)] = build(name, guid, attrs^(1<<bit), tm, payload)
+		}
+		wrongs["other-guid"] = build(name, flip(guid, 15), attrs, tm, payload)
+		wrongs["other-name"] = build(flip(name, 0), guid, attrs, tm, payload)
+		wrongs["other-second"] = build(name, guid, attrs, flip(tm, 6), payload)
+		wrongs["other-payload"] = build(name, guid, attrs, tm, flip(payload, len(payload)/2))
 	}
 	for k, w := range wrongs {
 		if bytes.Equal(w, want.Bytes()) {
@@ -347,7 +560,9 @@ func c06Gen(c *Ctx) {
 		}
 	}()
 	// one zone without DST, and DST zones of both hemispheres so that one of them is in DST at any date
-	tzs := []string{"UTC", "Asia/Tokyo", "America/St_Johns", "Pacific/Auckland"}
+	// and a fixed-offset zone chosen by the hour of the run so that its calendar DATE is not the UTC date right now
+	// (a named zone has the UTC date for most of the day: a date taken from local time would pass there)
+	tzs := []string{"UTC", "Asia/Tokyo", "America/St_Johns", "Pacific/Auckland", c06OtherDate}
 	globalG := wireGUID(attributes.EFI_GLOBAL_VARIABLE)
 	secdb := wireGUID(attributes.EFI_IMAGE_SECURITY_DATABASE_GUID)
 	type nv struct {
@@ -359,7 +574,10 @@ func c06Gen(c *Ctx) {
 	payloads := map[string][]byte{"empty-db": nil, "hash-list": encodeList(tSHA256, nil, 48, [][2][]byte{{u.owners[0], u.data[0]}, {u.owners[1], u.data[1]}}),
 		"cert-list": encodeList(tX509, nil, len(u.data[4])+16, [][2][]byte{{u.owners[0], u.data[4]}}), "raw1": {0x01}, "raw": randBytes(c, 300)}
 	pk := []string{"empty-db", "hash-list", "cert-list", "raw1", "raw"}
-	masks := []uint32{0x27, 0x67, 0x07, 0x00, 0xffffffff, 0x40}
+	masks := []uint32{0x27, 0x67, 0x07, 0x00, 0xffffffff, 0x40, 0x03, 0x87}
+	// who produces the update: the caller of signature.SignEFIVariable, or the caller of Efivarfs.WriteSignedUpdate over a
+	// recording EFIVars backend / over EFIFS on an in-memory filesystem (what reached the store is then the update)
+	vias := []string{"", "update-backend", "", "update-file"}
 	i := 0
 	for _, tz := range tzs {
 		for n := 0; n < c.N(14, 1500) && c.NFailures() < 6; n++ {
@@ -367,6 +585,9 @@ func c06Gen(c *Ctx) {
 			p := pk[c.Rng.Intn(len(pk))]
 			cs := Case{"op": "varsign", "tz": tz, "class": p, "name": hx([]byte(v.name)), "guid": hx(v.guid), "attrs": int64(masks[c.Rng.Intn(len(masks))]),
 				"payload": hx(payloads[p]), "key": int64(c.Rng.Intn(2)), "shape": int64(c.Rng.Intn(9)), "mutate": int64(n % 2), "busy": int64([]int{0, 0, 0, 1, 2}[n%5])}
+			if via := vias[c.Rng.Intn(len(vias))]; via != "" {
+				cs["via"] = via
+			}
 			if n%3 == 2 {
 				// a caller that signs two or three updates (other variables, other payloads - smaller, equal
 				// and larger ones -, possibly another key) and only then writes them out
@@ -394,7 +615,7 @@ func c06Gen(c *Ctx) {
 
 func init() {
 	register("C06", &PropDef{
-		Rule:   "signed updates for the standard secure-boot variables and arbitrary ASCII names (incl. empty and long), the global / image-security / random GUIDs, attribute masks {0x27, 0x67 (APPEND_WRITE), 7, 0, 0x40, all ones}, payloads {empty database, SHA-256 list, certificate list, one byte, 300 raw bytes}, two RSA keys x 9 certificate shapes, each produced in worker processes started with TZ=UTC, Asia/Tokyo, America/St_Johns and Pacific/Auckland (DST zones of both hemispheres), plus updates signed through a crypto.Signer that takes 1.1 s so that the clock moves during the call; in every second case the caller's value object is changed after the call and before the result is marshalled, and in two of five the signer is busy (returns an error) for its first one or two calls and the caller asks again; every third case is a SEQUENCE of two or three updates (other variables, masks, keys, payloads smaller / equal / larger than the earlier ones) signed one after the other by one caller in one process, whose results are all held and marshalled only after the last one was signed - each of them must still be the update that was signed. Layout is checked by an independent parser, the binding by encoding/asn1+crypto/rsa, go.mozilla.org/pkcs7 and the Lean Spec over the rebuilt buffer and over four wrong buffers; the output is reproduced byte for byte by the Lean model. Every case is non-trivial; distinct = distinct (zone, name, GUID, mask, payload, key, shape).",
+		Rule:   "signed updates for the standard secure-boot variables and arbitrary ASCII names (incl. empty and long), the global / image-security / random GUIDs, attribute masks {0x27, 0x67 (APPEND_WRITE), 7, 3, 0, 0x40, 0x87, all ones} (with and without the time-based-authentication bit), payloads {empty database, SHA-256 list, certificate list, one byte, 300 raw bytes}, two RSA keys x 9 certificate shapes, each produced in worker processes started with TZ=UTC, Asia/Tokyo, America/St_Johns and Pacific/Auckland (DST zones of both hemispheres) and in a fixed-offset zone chosen by the UTC hour of the run so that its calendar DATE is not the UTC date while the check runs (UTC+14 from 11:00 UTC on, UTC-12 before; the worker reports the zone offset and whether the dates differ, and the full date and time of the timestamp are compared with the UTC clock bracket), plus updates signed through a crypto.Signer that takes 1.1 s so that the clock moves during the call; in every second case the caller's value object is changed after the call and before the result is marshalled, and in two of five the signer is busy (returns an error) for its first one or two calls and the caller asks again; every third case is a SEQUENCE of two or three updates (other variables, masks, keys, payloads smaller / equal / larger than the earlier ones) signed one after the other by one caller in one process, whose results are all held and marshalled only after the last one was signed - each of them must still be the update that was signed. Who produces the update: the caller of signature.SignEFIVariable (half of the cases) or the caller of the entry point Efivarfs.WriteSignedUpdate, over a caller-supplied EFIVars backend that records the variable definition and value handed to its WriteVar, or over EFIFS on an in-memory filesystem (the one file written: name, 4-byte mask, rest); then what reached the store is held to the statement, and the store must have received exactly one write of the variable the update was produced for with exactly the attributes it was produced for (the signature is verified over the attributes the caller gave, so the attributes written are the attributes signed). Layout is checked by an independent parser, the binding by encoding/asn1+crypto/rsa, go.mozilla.org/pkcs7 and the Lean Spec over the rebuilt buffer and over wrong buffers (terminated name, attributes before GUID, no timestamp, one more payload byte, each of the eight low attribute bits flipped, one bit of the GUID / name / timestamp seconds / payload flipped), the SignedData must carry no encapsulated content (detached); the output is reproduced byte for byte by the Lean model. Every case is non-trivial; distinct = distinct (zone, name, GUID, mask, payload, key, shape).",
 		Assume: []string{"variable names are ASCII (the property's domain); time is bracketed by the worker around the call (±1 s)"},
 		Eval:   c06Eval, Gen: c06Gen,
 	})
